@@ -81,6 +81,19 @@ pub fn origins_with_twins(lines: &[Value], max: usize) -> Vec<Origin> {
     let twins: Vec<Origin> = origins.iter().take(3).map(|o| { let mut t = o.clone(); t.weights[0] += 4e-9; t.key = format!("{}~twin", o.key); t }).collect();
     let mut k = 1;
     for t in twins { origins.insert(k.min(origins.len()), t); k += 2; }
+    // wild-weight variants (numerical range: table entries of order 1e20 and 1e-20): kept by the callers only if the
+    // sampler builds - for the API properties ANY sampler that exists is a legitimate object
+    let n0 = origins.len().min(6);
+    for i in 0..n0 {
+        for (tag, small, big) in [("~tiny", 1e-10, 1.0), ("~huge", 1.0, 1e6)] {
+            let o = origins[i].clone();
+            if o.key.contains('~') || o.weights.len() < 2 { continue; }
+            let mut t = o.clone();
+            for (e, w) in t.weights.iter_mut().enumerate() { *w = if (e + i) % 2 == 0 { small } else { big }; }
+            t.key = format!("{}{}", o.key, tag);
+            origins.push(t);
+        }
+    }
     origins
 }
 
